@@ -66,8 +66,8 @@ theorem txnLoop_takeWhile (p after : Key) (limit : Int) (del : List Key) (ks : L
       unfold txnLoop
       simp [hk]
 
-/-- the cursor start of the transactional listing (no fallback) -/
-def txnSeek (p after : Key) : Key := if after = [] then p else joinPath p after
+/-- the cursor start of the transactional listing: the same `prefix + after` -/
+abbrev txnSeek (p after : Key) : Key := raftSeek p after
 
 theorem listPage_length_le (keys : List Key) (p after : Key) (limit : Int) (hl : limit > 0) :
     ((listPage keys p after limit).length : Int) ≤ limit := by
@@ -89,8 +89,6 @@ theorem raftTxnList_nil_eq_listPage (keys : List Key) (hs : Sorted keys) (p afte
   rw [raftLoop_takeWhile, htw, raftLoop_eq_canon p after limit _ [] hfs hfp (outInv_nil ..)] at hfrom
   unfold raftTxnList
   simp only [List.filter_nil, List.map_nil, sortSet, List.foldr_nil]
-  have hseek : (if after = [] then p else joinPath p after) = txnSeek p after := rfl
-  simp only [hseek]
   rw [txnLoop_takeWhile, htw, txnLoop_nil_eq_canon p after limit _ [] hfs hfp (outInv_nil ..)]
   simp only [List.filter_nil, List.reverse_nil, List.nil_append, hfrom]
   split
